@@ -52,7 +52,9 @@ META = {
         "printed psize report and the mg-auto numbers; mg-para/mg-manual/--asynch/--split texts are not in the Coq model "
         "and are judged by the oracle and the library only; pdb2pqr.psize has no main() (upstream #181): its "
         "build_parser() is driven as Psize(**options). inputgen.main raises on every command line (C17-F14). "
-        "Not covered: numbers wider than their columns (truncated by the writer: C08 overflow finding); --whitespace "
+        "Histories with 2-3 sizing objects alive at once, one object sized with two files, and repeated rendering: every "
+        "attribute, str() and the inputgen.Input texts of an object must equal those of the same structure sized alone "
+        "(the model has no state besides the lines and parameters). Not covered: numbers wider than their columns (truncated by the writer: C08 overflow finding); --whitespace "
         "records written by a print_pqr that leaves z|q|r touching (before the C08 repairs) with |q| >= 100 or r >= 10."
     ),
     "level_note": (
@@ -1139,6 +1141,9 @@ def run(ctx):
     if entry_correspondence(ctx, termsE, keepE):
         corr_broken = True
 
+    # ---------------- stream "history": several sizing objects, interleaved ----
+    history_stream(ctx, 60 * mult)
+
     # ---------------- samples etc. ----------------------------------------
     for c in (A_cases[8:9] + B_cases[-1:]):
         ctx.sample({"lines_head": c["lines"][:6], "params": c["params"], "impl": {k: c["impl"].get(k) for k in ("status", "ngrid", "nsmall", "nproc", "nfocus", "center", "fine", "coarse", "report")}, "model": c.get("model", "")[:300]})
@@ -1875,6 +1880,134 @@ def replay_entry(ctx, case):
 
 
 # --------------------------------------------------------------------------
+# stream "history": several sizing objects alive in one process, interleaved
+#
+# The sizing of a structure is a function of its own lines and parameters (the model has
+# no other input).  So whatever is observed of object A - every attribute, str(A), the
+# APBS input rendered from A, an Input built from A earlier - must be the same whether or
+# not other objects were sized in between, and sizing one object with two files must not
+# depend on a set_all() in between.
+
+PSIZE_ATTRS = ["minlen", "maxlen", "cfac", "fadd", "space", "gmemfac", "gmemceil", "ofrac", "redfac", "charge", "gotatom", "gothet",
+               "mol_length", "center", "coarse_length", "fine_length", "ngrid", "proc_grid", "nsmall", "nfocus"]
+INPUT_KINDS = [("mg-auto", True), ("mg-para", False), ("", False), ("mg-manual", True)]
+
+
+def h_size(lines, params, into=None):
+    from pdb2pqr.psize import Psize
+
+    p = into if into is not None else Psize(**params)
+    p.parse_lines(lines)
+    p.set_all()
+    return p
+
+
+def h_inputs(p, path):
+    from pdb2pqr import inputgen
+
+    return [inputgen.Input(path, p, m, 0, potdx=pd) for m, pd in INPUT_KINDS]
+
+
+def h_observe(p, path, inputs=None):
+    """Everything observable of a sized object (deep copies / texts)."""
+    import copy
+
+    obs = {"attr:" + k: copy.deepcopy(getattr(p, k, "<missing>")) for k in PSIZE_ATTRS}
+    try:
+        obs["str"] = str(p)
+    except Exception as e:  # noqa
+        obs["str"] = f"ERR:{type(e).__name__}"
+    for (m, pd), inp in zip(INPUT_KINDS, inputs if inputs is not None else h_inputs(p, path)):
+        try:
+            obs[f"input:{m or 'ceiling'}:potdx={pd}"] = str(inp)
+        except Exception as e:  # noqa
+            obs[f"input:{m or 'ceiling'}:potdx={pd}"] = f"ERR:{type(e).__name__}"
+    return obs
+
+
+def h_diff(alone, seen):
+    return [k for k in alone if alone[k] != seen.get(k)]
+
+
+def run_history(structs, kind):
+    """structs: [(lines, params), ...]; returns [(signature, what)].
+    kind 'interleaved': all objects are sized one after the other, Inputs of the first are
+    built right after it was sized; then every object is observed and compared with the same
+    object sized and observed alone.  kind 'resized': one object is sized with file 0 and then
+    with file 1; compared with a fresh object that parses both and calls set_all once.
+    kind 'rendered-twice': str() of the object and of its Inputs twice."""
+    fails = []
+    path = "dir/mol.pqr"
+    if kind == "interleaved":
+        alone = []
+        for lines, params in structs:
+            alone.append(h_observe(h_size(lines, params), path))
+        objs, early = [], None
+        for n, (lines, params) in enumerate(structs):
+            objs.append(h_size(lines, params))
+            if n == 0:
+                early = h_inputs(objs[0], path)
+        for n, p in enumerate(objs):
+            seen = h_observe(p, path)
+            d = h_diff(alone[n], seen)
+            if n == 0:
+                seen_early = h_observe(p, path, early)
+                d += ["early-" + k for k in h_diff(alone[0], seen_early) if k.startswith("input:") and k not in d]
+            if d:
+                site = "inputgen.Input" if all("input:" in k for k in d) else "psize.Psize"
+                k0 = d[0].replace("early-", "")
+                fails.append(({"site": site, "condition": "depends-on-other-objects"},
+                              f"object {n} of {len(objs)} sized one after the other: {', '.join(d[:8])} differ from the same structure sized alone, e.g. {d[0]}: alone={str(alone[n][k0])[:160]!r} now={str(seen.get(k0))[:160]!r}"))
+                break
+    elif kind == "resized":
+        (l0, p0), (l1, _) = structs[0], structs[1]
+        from pdb2pqr.psize import Psize
+
+        ref = Psize(**p0)
+        ref.parse_lines(l0)
+        ref.parse_lines(l1)
+        ref.set_all()
+        want = h_observe(ref, path)
+        p = h_size(l0, p0)
+        h_observe(p, path)
+        p = h_size(l1, p0, into=p)
+        d = h_diff(want, h_observe(p, path))
+        if d:
+            site = "inputgen.Input" if all("input:" in k for k in d) else "psize.Psize"
+            fails.append(({"site": site, "condition": "depends-on-earlier-calls"}, f"one object sized with two files in turn: {', '.join(d[:8])} differ from parsing both and sizing once"))
+    else:
+        p = h_size(*structs[0])
+        inputs = h_inputs(p, path)
+        a, b = h_observe(p, path, inputs), h_observe(p, path, inputs)
+        d = h_diff(a, b)
+        if d:
+            site = "inputgen.Input" if all("input:" in k for k in d) else "psize.Psize"
+            fails.append(({"site": site, "condition": "depends-on-earlier-calls"}, f"observed twice without any call in between: {', '.join(d[:8])} differ"))
+    return fails
+
+
+def history_stream(ctx, n):
+    rng = ctx.rng
+    for k in range(n):
+        kind = ["interleaved", "interleaved", "resized", "interleaved", "rendered-twice"][k % 5]
+        nobj = 3 if k % 4 == 1 else 2
+        structs = []
+        for j in range(nobj):
+            ws = rng.random() < 0.4
+            spec, ext, off = gen_spec(rng, rng.choice([1, 2, 3, 6, 12]), rng.choice(["safe", "cap"]))
+            lines = write_pqr(ctx, spec, ws, deco=gen_deco(rng))
+            params, _ = gen_params(rng, allow_bad=False)
+            if j == 1 and k % 3 == 0:
+                params["gmemceil"] = rng.choice([1, 5, 20])  # a parallel one next to a sequential one
+            structs.append((lines, params))
+        fails = run_history(structs, kind)
+        ctx.count(f"history:{kind}:{nobj if kind == 'interleaved' else ''}")
+        ctx.evaluated(("history", kind, k), True)
+        for sig, what in fails:
+            ctx.fail(sig, what, {"kind": "history", "history": kind, "structs": [{"lines": l, "params": p} for l, p in structs]})
+
+
+# --------------------------------------------------------------------------
 # replay
 
 
@@ -1925,6 +2058,10 @@ def replay(ctx, data):
         fails = [w for _, w in dump_oracle(c)]
         print("replay:", ("FAILS: " + "; ".join(fails)[:600]) if fails else "passes")
         ctx.cleanup()
+        return 1 if fails else 0
+    if kind == "history":
+        fails = run_history([(x["lines"], x["params"]) for x in case["structs"]], case["history"])
+        print("replay:", ("FAILS: " + "; ".join(w for _, w in fails)[:700]) if fails else "passes", "| history:", case["history"], len(case["structs"]), "structures")
         return 1 if fails else 0
     if kind == "entry":
         return replay_entry(ctx, case)
